@@ -728,6 +728,11 @@ fn prepare_b(dir: &str, sc: &ScenB) -> BaseB {
 }
 
 fn run_child(so: &str, b: &BaseB, sc: &ScenB, k: u64, short: bool, log: Option<&str>) -> Result<i32, String> {
+	run_child_mode(so, b, sc, k, short, None, log)
+}
+
+/// `fail`: Some("once" | "from") = the k-th write call (every write from the k-th call on) returns ENOSPC
+fn run_child_mode(so: &str, b: &BaseB, sc: &ScenB, k: u64, short: bool, fail: Option<&str>, log: Option<&str>) -> Result<i32, String> {
 	let exe = std::env::current_exe().map_err(|e| e.to_string())?;
 	let mut c = std::process::Command::new(exe);
 	c.args(&["c12", "child", &sc.op, &b.top, &hexs(&b.old), &hexs(&b.new), &hexs(&b.new_phrase)])
@@ -735,6 +740,10 @@ fn run_child(so: &str, b: &BaseB, sc: &ScenB, k: u64, short: bool, log: Option<&
 		.env("GWV_CP_DIR", &b.top)
 		.env("GWV_CP_K", k.to_string())
 		.env("GWV_CP_SHORT", if short { "1" } else { "0" });
+	match fail {
+		Some(f) => c.env("GWV_CP_FAIL", f),
+		None => c.env_remove("GWV_CP_FAIL"),
+	};
 	match log {
 		Some(l) => c.env("GWV_CP_LOG", l),
 		None => c.env_remove("GWV_CP_LOG"),
@@ -836,6 +845,34 @@ pub fn run_b(so: &str, dir: &str, sc: &ScenB, k: u64, short: bool, kind: &str) -
 	Ok(out)
 }
 
+/// one run of part (b) with a failing (ENOSPC) write instead of a kill: the operation returns (with
+/// an error or not) and the original seed must still be recoverable
+pub fn run_b_fail(so: &str, dir: &str, sc: &ScenB, k: u64, mode: &str, kind: &str) -> Result<PartOut, String> {
+	let mut out = PartOut::default();
+	let b = prepare_b(dir, sc);
+	let code = run_child_mode(so, &b, sc, k, false, Some(mode), None)?;
+	out.evals += 1;
+	if code == 77 {
+		return Err(format!("child of {:?} was killed in fail mode", sc));
+	}
+	let ctx = format!("{:?} with write call #{} ({}) failing with ENOSPC ({}); the operation returned exit code {}", sc, k, kind, mode, code);
+	let (orig, newer) = examine(&mut out, dir, &b, &ctx);
+	let mut o = orig.clone();
+	o.sort();
+	out.bump(&format!("write-failed:{}:{}:{}:original-seed-in[{}]", sc.op, mode, if code == 0 { "returned-ok" } else { "returned-error" }, o.join(",")));
+	if orig.is_empty() {
+		out.problem(
+			format!("interrupt/{}/original-seed-unrecoverable/write-error-{}:{}", sc.op, mode, kind),
+			format!("{}: no wallet.seed / wallet.seed.bak* file opens to the original seed with the old or the new password", ctx),
+		);
+	}
+	if code == 0 && !newer.iter().any(|s| s == "wallet.seed:new" || (b.new == b.old && s == "wallet.seed:old")) {
+		out.problem(format!("interrupt/{}/reported-success-after-failed-write", sc.op), format!("{}: the operation reported success but wallet.seed does not open with the new password", ctx));
+	}
+	let _ = std::fs::remove_dir_all(dir);
+	Ok(out)
+}
+
 /// enumerate every crash point of one scenario
 fn scenario_b(so: &str, dir: &str, sc: &ScenB) -> Result<(PartOut, u64, Vec<String>), String> {
 	// uninterrupted run with the call log
@@ -868,6 +905,10 @@ fn scenario_b(so: &str, dir: &str, sc: &ScenB) -> Result<(PartOut, u64, Vec<Stri
 		if kind.starts_with("write") || kind.starts_with("pwrite") {
 			out.merge(run_b(so, dir, sc, k, true, kind)?);
 			crashed += 1;
+			// the same write returning ENOSPC (once; and the disk staying full)
+			out.merge(run_b_fail(so, dir, sc, k, "once", kind)?);
+			out.merge(run_b_fail(so, dir, sc, k, "from", kind)?);
+			crashed += 2;
 		}
 	}
 	// one past the last call: the run must complete
@@ -1681,7 +1722,13 @@ pub fn replay(payload: &Value) -> i32 {
 				}
 			};
 			let sc: ScenB = serde_json::from_value(payload["scenario"].clone()).unwrap();
-			let r = run_b(&so, &format!("{}/c12b-replay", root), &sc, payload["k"].as_u64().unwrap(), payload["short"].as_bool().unwrap_or(false), payload["call"].as_str().unwrap_or("?"));
+			let k = payload["k"].as_u64().unwrap_or(0);
+			let r = if k == 0 {
+				// the finding names its interruption point in its text: re-run every interruption of the scenario
+				scenario_b(&so, &format!("{}/c12b-replay", root), &sc).map(|x| x.0)
+			} else {
+				run_b(&so, &format!("{}/c12b-replay", root), &sc, k, payload["short"].as_bool().unwrap_or(false), payload["call"].as_str().unwrap_or("?"))
+			};
 			return match r {
 				Ok(o) => {
 					println!("part (b) run: outcomes {:?}\nproblems: {:?}", o.hist, o.problems);
